@@ -1,6 +1,8 @@
 import C2paModel.Model.C13
 import C2paModel.Model.C14
 import C2paModel.Model.C15
+import C2paModel.Model.C01
+import C2paModel.Model.C06
 /-
 C03 — model of the two-pass sign/embed flow of `Store::save_to_stream` / `start_save_stream` /
 `finish_save_stream` (sdk/src/store.rs) for the data-hash path (non-BMFF format with a handler,
@@ -25,7 +27,16 @@ regions lie inside the asset; re-embedding replaces) and `splitHandler` — pref
 manifest ++ suffix, with prefix/suffix allowed to depend on the payload *length* (TIFF writes
 the byte count into an IFD entry) — is proved to obey them.
 
-Idealisations: `usize` additions in `generate_data_hashes_for_stream` are unbounded `Nat`
+Further parts: the `remove_manifests` branch for sidecar / remote manifests
+(`startSaveNoEmbed`, `zeroLocs`), a second container handler that really reads the asset it is
+given (`Splice`), the validation codes of reading the signed store back (`readBack`: C06's
+signature codes, one hashed-URI check per stored assertion, the data-hash verdict of C01's
+`bindData`; the state is C04's `state`), and the claim store `to_claim` builds (thumbnail,
+ingredients, supplied assertions, hard binding — with `next_instance`'s substring test) and its
+partition by `Manifest::from_store`.
+
+Idealisations: `next_instance` is modelled for labels without `/` and `__` (its
+`assertion_label_from_link` then returns the label unchanged); `usize` additions in `generate_data_hashes_for_stream` are unbounded `Nat`
 additions; JUMBF serialisation (`to_jumbf_internal`) is a function parameter whose length law
 (`base + size of the DataHash assertion + size of the signature`) is a theorem hypothesis.
 -/
@@ -196,12 +207,78 @@ def saveToStream (E : Env) (alg : String) (src : Asset) (buf : Nat) : Res :=
     let final := E.jumbf st.dh (E.sign st.dh)
     .ok (E.embed st.out0 final) final st.dh
 
+/-! ### sidecar / remote manifests (`remove_manifests` branch) -/
+
+/-- the fix-up of `start_save_stream` when the manifest is not embedded: every `Cai` and
+`OtherExclusion` location of the output is set to offset 0, length 0 -/
+def zeroLocs (locs : List Loc) : List Loc :=
+  locs.map fun l => if l.kind == .cai || l.kind == .otherExcl then { l with offset := 0, length := 0 } else l
+
+/-- `start_save_stream` for `RemoteManifest::SideCar` / `Remote(url)`: `inter` is the
+intermediate stream (the source with any manifest store removed and, for `Remote`, the XMP
+reference written) together with the object locations its handler reports; the output of the
+first pass is a verbatim copy of it and the second pass hashes it with the zeroed locations. -/
+def startSaveNoEmbed (E : Env) (alg : String) (inter : Asset) (buf : Nat) : Except Err Started :=
+  match genDataHash E.H alg inter.bytes inter.locs false buf with
+  | .error e => .error e
+  | .ok h0 =>
+    let dh0 := { h0 with pad := 10 }
+    let data0 := E.jumbf dh0 E.sigPlaceholder
+    match genDataHash E.H alg inter.bytes (zeroLocs inter.locs) true buf with
+    | .error e => .error e
+    | .ok h1 =>
+      match updateDataHash h1 dh0.size with
+      | .error e => .error e
+      | .ok dh1 =>
+        let data1 := E.jumbf dh1 E.sigPlaceholder
+        if data1.length ≠ data0.length then .error .jumbfCreation
+        else .ok ⟨inter, dh1, data0.length⟩
+
+/-- `save_to_stream` for a sidecar / remote manifest: `finish_save_stream` copies the
+intermediate stream; the store is returned, not embedded. -/
+def saveNoEmbed (E : Env) (alg : String) (inter : Asset) (buf : Nat) : Res :=
+  match startSaveNoEmbed E alg inter buf with
+  | .error e => .err e
+  | .ok st =>
+    let final := E.jumbf st.dh (E.sign st.dh)
+    .ok st.out0 final st.dh
+
 /-- `DataHash::verify_stream_hash` on the asset the verifier reads. -/
 def verifyBinding (H : List UInt8 → List UInt8) (alg : String) (asset : List UInt8) (dh : DHash)
     (buf : Nat) : Bool :=
   match C13.hashModel alg asset dh.ranges true buf none with
   | .ok abs _ => H abs == dh.hash
   | _ => false
+
+/-! ### reading the signed output back: validation codes and state -/
+
+def cUriMatch : C04.Code := "assertion.hashedURI.match".toList
+def cUriMismatch : C04.Code := "assertion.hashedURI.mismatch".toList
+def cDataMatch : C04.Code := "assertion.dataHash.match".toList
+def cDataMismatch : C04.Code := "assertion.dataHash.mismatch".toList
+def cDataExtra : C04.Code := "assertion.dataHash.additionalExclusionsPresent".toList
+
+/-- the statuses the data-hash arm of `verify_hash_binding` logs for a verdict of C01's
+`bindData`; `none` = the read fails with an error instead of a report -/
+def bindingStatuses : C01.Verdict → Option (List C04.Status)
+  | .matched extra =>
+    some ((if extra then [⟨cDataExtra, .informational, none⟩] else []) ++ [⟨cDataMatch, .success, none⟩])
+  | .mismatched extra =>
+    some ((if extra then [⟨cDataExtra, .informational, none⟩] else []) ++ [⟨cDataMismatch, .failure, none⟩])
+  | _ => none      -- fatal / panic / malformed-assertion verdicts: no binding status of this kind
+
+/-- The active-manifest validation results of a single-manifest store, in log order
+(`Store::verify_store` → `Claim::verify_claim`): the signature step (C06 `signatureCodes`,
+trust-policy verifier, conforming certificate), one hashed-URI check per assertion of the claim
+(`uris`: did the stored hash match the assertion box), then the hard binding. -/
+def readBack (trust : C06.Trust) (sigOk : Bool) (uris : List Bool) (v : C01.Verdict) :
+    Option C04.Results :=
+  match bindingStatuses v with
+  | none => none
+  | some bs =>
+    let us : List C04.Status := uris.map fun ok =>
+      if ok then ⟨cUriMatch, .success, none⟩ else ⟨cUriMismatch, .failure, none⟩
+    some ((us ++ bs).foldl C04.addStatus (C06.resultsOf (C06.signatureCodes .trustPolicy .ok trust sigOk)))
 
 /-! ### the prefix ++ framed manifest ++ suffix container -/
 
@@ -221,6 +298,26 @@ def Split.embed (s : Split) (_asset : Asset) (jumbf : List UInt8) : Asset :=
 or the placeholder the handler inserts to find the location) at `at_` of length `probe` -/
 def Split.source (bytes : List UInt8) (at_ probe : Nat) : Asset :=
   { bytes := bytes, locs := [⟨at_, probe, .cai⟩] }
+
+/-! ### a container handler that reads the asset it is given -/
+
+/-- A handler that removes the C2PA region the asset reports (or inserts at `ins` when the
+asset reports none) and writes the framed payload in its place — the shape of the JPEG / PNG /
+GIF / SVG / RIFF writers. -/
+structure Splice where
+  wrap : List UInt8 → List UInt8
+  ins : Nat
+
+/-- where the asset holds its manifest store: the first `Cai` location, else `(ins, 0)` -/
+def Splice.region (s : Splice) (a : Asset) : Nat × Nat :=
+  match a.locs.find? (fun l => l.kind == .cai) with
+  | some l => (l.offset, l.length)
+  | none => (s.ins, 0)
+
+/-- `save_jumbf_to_stream` of the splice handler -/
+def Splice.embed (s : Splice) (a : Asset) (jumbf : List UInt8) : Asset :=
+  { bytes := a.bytes.take (s.region a).1 ++ s.wrap jumbf ++ a.bytes.drop ((s.region a).1 + (s.region a).2)
+    locs := [⟨(s.region a).1, (s.wrap jumbf).length, .cai⟩] }
 
 /-! ### report: `Builder::to_claim` label plumbing and `Manifest::from_store` -/
 
@@ -251,15 +348,23 @@ def nextInstance (store : List CAsn) (label : String) : Nat :=
 def addAssertion (store : List CAsn) (a : Asn) : List CAsn :=
   store ++ [⟨a, nextInstance store a.label⟩]
 
-/-- the typed-assertion paths of `to_claim` re-label: `c2pa.actions` is written as
-`c2pa.actions.v2`; every other label generated here is kept -/
-def normLabel (l : String) : String := if l == "c2pa.actions" then "c2pa.actions.v2" else l
+def startsWith (p l : String) : Bool := p.toList.isPrefixOf l.toList
+
+/-- `to_claim` matches `parse_label(label).0.starts_with("c2pa.actions")` (stripping a `__n`
+instance and a `.vN` version suffix cannot change whether the label starts with
+`c2pa.actions`) and writes the typed `Actions` assertion, whose label is `c2pa.actions.v2`;
+every other label generated here is kept (the other typed paths keep the supplied label) -/
+def normLabel (l : String) : String := if startsWith "c2pa.actions" l then "c2pa.actions.v2" else l
 
 structure Definition where
   title : Option String
   format : String
   version : Nat
   assertions : List Asn
+  /-- a claim thumbnail resource is supplied -/
+  thumbnail : Bool := false
+  /-- number of ingredients supplied -/
+  ingredients : Nat := 0
   deriving DecidableEq, Repr
 
 structure Claim where
@@ -269,9 +374,28 @@ structure Claim where
   store : List CAsn
   deriving DecidableEq, Repr
 
+/-- label of the claim thumbnail assertion (`EmbeddedData` for a version ≥ 2 claim, else
+`Thumbnail` with the image type appended; the harness supplies JPEG) -/
+def thumbLabel (version : Nat) : String :=
+  if version ≥ 2 then "c2pa.thumbnail.claim" else "c2pa.thumbnail.claim.jpeg"
+
+/-- label of an ingredient assertion (`Ingredient::add_to_claim`) -/
+def ingredientLabel (version : Nat) : String :=
+  if version ≥ 2 then "c2pa.ingredient.v3" else "c2pa.ingredient.v2"
+
+/-- labels `to_claim` stores before the definition's assertions: thumbnail, then ingredients -/
+def preLabels (d : Definition) : List String :=
+  (if d.thumbnail then [thumbLabel d.version] else []) ++ List.replicate d.ingredients (ingredientLabel d.version)
+
+/-- labels of everything the claim stores, in order: pre-labels, the (re-labelled) supplied
+assertions, then the hard binding added by `start_save_stream` -/
+def allLabels (d : Definition) : List String :=
+  preLabels d ++ d.assertions.map (fun a => normLabel a.label) ++ ["c2pa.hash.data"]
+
 /-- `to_claim` followed by the hard binding added by `start_save_stream` -/
 def toClaim (d : Definition) : Claim :=
-  let store := d.assertions.foldl (fun st a => addAssertion st { a with label := normLabel a.label }) []
+  let pre := (preLabels d).foldl (fun st l => addAssertion st ⟨l, "", false⟩) []
+  let store := d.assertions.foldl (fun st a => addAssertion st { a with label := normLabel a.label }) pre
   { title := d.title, format := some d.format, version := d.version
     store := addAssertion store ⟨"c2pa.hash.data", "", false⟩ }
 
@@ -279,18 +403,34 @@ def toClaim (d : Definition) : Claim :=
 def wire (c : Claim) : Claim := { c with format := if c.version ≥ 2 then none else c.format }
 
 def isHardBinding (l : String) : Bool :=
-  l == "c2pa.hash.data" || l == "c2pa.hash.bmff" || l == "c2pa.hash.boxes"
+  l == "c2pa.hash.data" || l == "c2pa.hash.bmff" || l == "c2pa.hash.boxes" || startsWith "c2pa.hash.bmff" l
+
+/-- which part of the report an assertion of the claim goes to (`Manifest::from_store`, arms
+in source order) -/
+inductive Part | assertion | ingredient | hidden | thumbnail
+  deriving DecidableEq, Repr
+
+def classify (l : String) : Part :=
+  if startsWith "c2pa.actions" l then .assertion
+  else if startsWith "c2pa.ingredient" l then .ingredient
+  else if isHardBinding l then .hidden
+  else if startsWith "c2pa.thumbnail.claim" l then .thumbnail
+  else .assertion
 
 structure Report where
   title : Option String
   format : Option String
   assertions : List CAsn
+  ingredients : List CAsn
+  thumbnail : Option CAsn
   deriving DecidableEq, Repr
 
 /-- `Manifest::from_store`, restricted to what C03 compares -/
 def report (c : Claim) : Report :=
   { title := c.title, format := c.format
-    assertions := c.store.filter fun x => !isHardBinding x.asn.label }
+    assertions := c.store.filter fun x => classify x.asn.label == .assertion
+    ingredients := c.store.filter fun x => classify x.asn.label == .ingredient
+    thumbnail := (c.store.filter fun x => classify x.asn.label == .thumbnail).getLast? }
 
 /-! ### line protocol -/
 
@@ -335,10 +475,40 @@ def handle (toks : List String) : String :=
     let labels := splitList (if field rest "labels" == "-" then "" else field rest "labels") ","
     let d : Definition :=
       { title := none, format := "f", version := v
-        assertions := labels.map fun l => ⟨l, "", false⟩ }
+        assertions := labels.map fun l => ⟨l, "", false⟩
+        thumbnail := field rest "thumb" == "1"
+        ingredients := (field rest "ing").toNat?.getD 0 }
     let r := report (wire (toClaim d))
     let out := r.assertions.map fun x => s!"{x.asn.label}#{x.inst}"
+    let ing := r.ingredients.map fun x => s!"{x.asn.label}#{x.inst}"
     (if r.format.isSome then "fmt " else "nofmt ") ++ (if out.isEmpty then "-" else ",".intercalate out)
+      ++ " ing=" ++ (if ing.isEmpty then "-" else ",".intercalate ing)
+      ++ " thumb=" ++ (match r.thumbnail with | some t => s!"{t.asn.label}#{t.inst}" | none => "-")
+  | "noembed" :: rest =>
+    let alg := field rest "alg"
+    let len := (field rest "len").toNat?.getD 0
+    let locs := parseLocs (field rest "locs")
+    let dl := (digestLen alg).getD 0
+    let E : Env :=
+      { embed := fun a _ => a
+        jumbf := fun d s => List.replicate (d.size + s.length) 0
+        H := fun _ => List.replicate dl 170
+        sign := fun _ => []
+        sigPlaceholder := [] }
+    match startSaveNoEmbed E alg ⟨List.replicate len 0, locs⟩ (len + 1) with
+    | .error e => "err " ++ e.str
+    | .ok st =>
+      s!"ok excl={exclStr st.dh.excl} size={st.dh.size} pad={st.dh.pad} pad2={C14.optStr st.dh.pad2}"
+  | "readback" :: rest =>
+    let trust := if field rest "trust" == "1" then C06.Trust.trusted else .untrusted
+    let n := (field rest "uris").toNat?.getD 0
+    let bad := (field rest "baduri").toNat?          -- index of a tampered assertion box, if any
+    let uris := (List.range n).map fun i => bad != some i
+    let extra := field rest "extra" == "1"
+    let v : C01.Verdict := if field rest "bind" == "match" then .matched extra else .mismatched extra
+    match readBack trust (field rest "sig" == "1") uris v with
+    | none => "error"
+    | some r => (C04.state r).str ++ " " ++ C04.resultsStr r
   | _ => "bad-op"
 
 end C2pa.C03
